@@ -50,8 +50,9 @@ pub fn strategy() -> BoxedStrategy<Case> {
         vec(bogus_entry(), 0..5),
         prop::option::weighted(0.25, vec(garbage_entry(), 1..3)),
         any::<u64>(),
+        prop::option::weighted(0.2, prop_oneof![Just("eyJhbGciOiJFUzI1NiIsInR5cCI6ImtiK2p3dCJ9.e30.AAAA".to_string()), Just("x".to_string()), Just("e30.e30.".to_string())]),
     )
-        .prop_map(|(issue, mask, bogus, garbage, order)| {
+        .prop_map(|(issue, mask, bogus, garbage, order, kb)| {
             let n = mark(&issue.claims, &issue.strat).map(|t| t.hidden_paths().len()).unwrap_or(0);
             let mut entries: Vec<Entry> = vec![];
             // subset of the genuine disclosures; density from the first mask word
@@ -75,7 +76,7 @@ pub fn strategy() -> BoxedStrategy<Case> {
                     entries.swap(i, j);
                 }
             }
-            C03Case { issue, entries }
+            C03Case { issue, entries, kb }
         })
         .boxed()
 }
